@@ -131,7 +131,7 @@ def parse_harness_file(path):
         # family instance: macro!(name, ...);  optional trailing //@ tier: quick
         if family is not None:
             m = re.match(r"(\w+)!\s*\(\s*(\w+)\s*[,)](.*)$", s)
-            if m and m.group(1) == family["_macro"].split()[0]:
+            if m and m.group(1).startswith(family["_macro"].split()[0]):
                 h = Harness()
                 h.name = m.group(2)
                 fm = dict(family)
@@ -173,6 +173,18 @@ def load_registry():
     for fn in sorted(os.listdir(HARNESS_DIR)):
         if fn.endswith(".rs"):
             hs.extend(parse_harness_file(os.path.join(HARNESS_DIR, fn)))
+    cur_path = os.path.join(HARNESS_DIR, "curation.json")
+    if os.path.exists(cur_path):
+        with open(cur_path) as f:
+            cur = json.load(f)
+        for prop, lst in cur.items():
+            if prop.startswith("_"):
+                continue
+            for h in hs:
+                if prop in h.props:
+                    h.props.remove(prop)
+                if h.name in lst:
+                    h.props.append(prop)
     names = {}
     for h in hs:
         if h.name in names:
@@ -426,9 +438,8 @@ class Runner:
     def _run(self, h, slot):
         tdir = os.path.join(self.scratch, "t%d" % slot)
         log = os.path.join(self.scratch, "log_%s.txt" % h.name)
-        z = ""
-        if h.stubs:
-            z += " -Z stubbing"
+        # always on: a harness file may hold stubbed harnesses (inside macros) next to the selected one
+        z = " -Z stubbing"
         cmd = "cargo kani --harness %s --exact --target-dir %s %s" % (h.modpath, tdir, z)
         rc, timed_out, out, wall = run_cmd(cmd, self.ds, h.timeout, log)
         res = parse_kani(out)
